@@ -39,6 +39,9 @@ def Commutes {σ ρ} (a : Analyzer) (step : σ → Bytes → σ × Option ρ) (c
     (tr : List Bytes) : Prop :=
   results (run step (some c) s₀ tr).2 = results (run step none s₀ (tr.filter (ownAdmits a c))).2
 
+instance {σ ρ} [DecidableEq ρ] (a : Analyzer) (step : σ → Bytes → σ × Option ρ) (c s₀ tr) :
+    Decidable (Commutes a step c s₀ tr) := by unfold Commutes; exact inferInstance
+
 /-- The quick decoder of the filter and the analyzer's decoder agree on the frame
 (or the analyzer does not look at it at all). -/
 def Agree (a : Analyzer) (p : Bytes) : Prop :=
@@ -60,20 +63,21 @@ def portsAt (ip : Bytes) (off : Nat) : Nat × Nat := (be16 ip off, be16 ip (off 
 * IPv4 in Ethernet or raw framing whose header length is at least 5 words — or whose four bytes at
   `ihl*4` happen to equal the four bytes at offset 20;
 and *no* IPv4 frame behind a `1e 00` loopback header. -/
+def AgreesView (p : Bytes) (v : View) : Prop :=
+  match v.loc.fr, v.loc.ver with
+  | .null, .v4 => False
+  | .null, .v6 => byte p 2 = 0 ∧ byte p 3 = 0
+  | _, .v6 => True
+  | _, .v4 => 5 ≤ v4Ihl v.loc.ip ∨ portsAt v.loc.ip (v4Ihl v.loc.ip * 4) = portsAt v.loc.ip 20
+instance (p v) : Decidable (AgreesView p v) := by
+  unfold AgreesView; split <;> exact inferInstance
+
 def Agrees (a : Analyzer) (p : Bytes) : Prop :=
   match analyzerView a p with
   | none => True
-  | some v =>
-    match v.loc.fr, v.loc.ver with
-    | .null, .v4 => False
-    | .null, .v6 => byte p 2 = 0 ∧ byte p 3 = 0
-    | _, .v6 => True
-    | _, .v4 => 5 ≤ v4Ihl v.loc.ip ∨ portsAt v.loc.ip (v4Ihl v.loc.ip * 4) = portsAt v.loc.ip 20
+  | some v => AgreesView p v
 instance (a p) : Decidable (Agrees a p) := by
-  unfold Agrees
-  split
-  · exact inferInstance
-  · split <;> exact inferInstance
+  unfold Agrees; split <;> exact inferInstance
 
 /-! ## C18 (pure half) -/
 
